@@ -228,19 +228,26 @@ fn case_main(cfgs: &str, faults: &str) {
     // ---- what became of the child ----
     let (mut status, mut status2, mut waits) = ("-".to_string(), "-".to_string(), 0);
     let mut stray = "none";
+    let mut pre = "-";
     match res {
         Ok(mut child) => {
             kit::begin(vec![], -1);
+            // a poll right after spawn (the child is normally still running) must not disturb a later wait
+            let p0 = child.try_wait();
             let a = child.wait();
             let b = child.wait();
             let c = child.try_wait();
             let l = kit::end();
             waits = l.iter().filter(|r| r.nr == sc::nr::WAIT4).count();
+            pre = match p0 { Ok(None) => "running", Ok(Some(_)) => "exited", Err(_) => "err" };
             status = a.map(|x| x.to_string()).unwrap_or("err".into());
             status2 = match (b, c) {
                 (Ok(x), Ok(Some(y))) if x == y => x.to_string(),
                 _ => "differs".into(),
             };
+            // after a successful wait nothing of the child may be left (ECHILD)
+            let (pid, errno, _) = kit::raw_wait_any_nohang();
+            stray = if errno != 0 { "none" } else if pid != 0 { "zombie" } else { "running" };
         }
         Err(_) => {
             // give a stray child a moment to show itself, then look: ECHILD = nothing left (reaped or never forked)
@@ -333,13 +340,14 @@ fn case_main(cfgs: &str, faults: &str) {
         }
     };
     println!(
-        "res={} returned={} ctrace={} status={} status2={} waits={} img={} seen={} stray={} handed={} leaked={} ptrace={}",
+        "res={} returned={} ctrace={} status={} status2={} waits={} pre={} img={} seen={} stray={} handed={} leaked={} ptrace={}",
         res_s,
         returned,
         if ctrace.is_empty() { "-".to_string() } else { ctrace.join(",") },
         status,
         status2,
         waits,
+        pre,
         img,
         seen,
         stray,
